@@ -68,7 +68,10 @@ RULE = ("arrangements = multisets of n protoclusters, each a core of 1..k grid c
         "interleaved) and 2 guests whose cores begin exactly at the first cell / end exactly at the "
         "last cell of the host's core span, fill it or sit inside it, with equal or different "
         "neighbourhoods (identical full starts and ends, identical guests), at the contig ends, "
-        "inside, and before/after/across the origin; every arrangement "
+        "inside, and before/after/across the origin; and a same-extent family: a protocluster with "
+        "exactly the coordinates of a hybrid/interleaved candidate (or of one of its members) that "
+        "it is not part of, with a fourth protocluster absent / inside / apart / touching / over "
+        "either end / around everything; every arrangement "
         "is supplied in one order per distinct sorted protocluster list that add_protocluster can "
         "build from it (ties between identical extents) "
         "and in every order when the ordering is inconsistent (whole-record + origin-spanning extent); non-trivial = >= 2 protoclusters related by at least one of the three "
@@ -242,6 +245,45 @@ def _tie_cases(tier: str) -> Iterable[Dict[str, Any]]:
                             yield {"L": cells * CELL, "circ": circular, "protos": protos, "share": share}
 
 
+def _same_extent_cases(tier: str) -> Iterable[Dict[str, Any]]:
+    """A protocluster with exactly the coordinates of a candidate it is NOT a member of: a host pair
+    A, B with overlapping cores (sharing a defining gene -> hybrid, or not -> interleaved) whose
+    candidate spans the cells [s, s+w); a protocluster C with that very extent whose core lies inside
+    the extent but apart from the cores of A and B (asymmetric neighbourhoods); and a fourth
+    protocluster D that is absent, inside, apart, touching without a shared base, or overlaps the
+    span on its left or right end so that the neighbouring candidate gets other coordinates than
+    the host candidate.  Also the variant where C has the extent of the member A instead of the
+    span.  Lines, and rings with the span before, after and across the origin."""
+    quick = tier == "quick"
+    cells = 10
+    for circular in (False, True):
+        for width in (4, 5):
+            positions = (2, 3) if not circular else ((0, 3, 6, 7, 8, 9) if quick else tuple(range(cells)))
+            for start in positions:
+                if not circular and start + width + 2 > cells:
+                    continue
+
+                def arc(lo: int, hi: int) -> Optional[List[int]]:
+                    return _cell_arc(start + lo, start + hi, cells, circular)
+                host = [[arc(1, 3), arc(0, 3)], [arc(2, 3), arc(1, width)]]       # [core, extent] of A, B
+                thirds = [[arc(width - 1, width), arc(0, width)], [arc(3, 4), arc(0, width)],
+                          [arc(0, 1), arc(0, width)], [arc(0, 1), arc(0, 3)]]
+                fourths = [None,
+                           [arc(width, width + 1), arc(width - 1, width + 2)],      # over the right end
+                           [arc(-2, -1), arc(-2, 1)],                               # over the left end
+                           [arc(width + 1, width + 2), arc(width + 1, width + 2)],  # apart
+                           [arc(width, width + 1), arc(width, width + 1)],          # touching
+                           [arc(width - 1, width), arc(width - 1, width)],          # inside, at the end
+                           [arc(width, width + 2), arc(0, width + 2)]]              # containing everything
+                for third in thirds:
+                    for fourth in fourths:
+                        protos = [list(p) for p in host] + [list(third)] + ([list(fourth)] if fourth else [])
+                        if any(part is None for proto in protos for part in proto):
+                            continue
+                        for share in ([[0, 1]], []):
+                            yield {"L": cells * CELL, "circ": circular, "protos": protos, "share": share}
+
+
 # ---------------------------------------------------------------------------------------------
 # sharding
 # ---------------------------------------------------------------------------------------------
@@ -268,7 +310,7 @@ def run_shard(shard: Dict[str, Any], run: Any) -> None:
                     return
                 _check_case(run, case)
             position += 1
-    for case in _tie_cases(shard["tier"]):
+    for case in itertools.chain(_tie_cases(shard["tier"]), _same_extent_cases(shard["tier"])):
         if position % shard["of"] == shard["index"]:
             if run.out_of_time():
                 return
